@@ -645,15 +645,14 @@ Definition chc_okb (sch : schema) : bool :=
      (negb (ch_dflt x && ch_dflt y) || (ch_case x =? ch_case y)))) (all_chcs sch)) (all_chcs sch).
 
 (* freshly parsed data (LYD_PARSE_ONLY of a document without empty non-presence containers and without default
-   attributes): every node is new and explicit, a non-presence container has children, no two siblings lie in different
-   cases of one choice *)
+   attributes): every node is new and explicit, a non-presence container has children *)
 Fixpoint fresh_node (sch : schema) (n : dnode) {struct n} : bool :=
   match n with
   | DN s v d m ch =>
-      d_new (DN s v d m ch) && negb d && (if is_np_cont sch s then negb (is_nil ch) else true) && cases_okb sch ch &&
+      d_new (DN s v d m ch) && negb d && (if is_np_cont sch s then negb (is_nil ch) else true) &&
       (fix all (l : list dnode) : bool := match l with [] => true | x :: l' => fresh_node sch x && all l' end) ch
   end.
-Definition freshb (sch : schema) (f : forest) : bool := cases_okb sch f && forallb (fresh_node sch) f.
+Definition freshb (sch : schema) (f : forest) : bool := forallb (fresh_node sch) f.
 
 
 (* schema sanity used by the canonical-order theorem: schema ids are unique; key leaves have no default and are not
